@@ -92,6 +92,12 @@ func (s *streamWriter) Invoke(msgs []actor.Envelope) {
 		})
 	}
 
+	if len(messages) == 0 {
+		// Nothing could be encoded (foreign or unserialisable messages only): there is nothing to
+		// write, and the stream may not even exist yet while the writer is still dialling.
+		return
+	}
+
 	env := &Envelope{
 		Senders:   senders,
 		Targets:   targets,
